@@ -402,8 +402,39 @@ class NameConverter(ast.NodeTransformer):
         self.map_mangled = map_mangled
         self.code_mangled = code_mangled
         self.count = count()
+        self.depth = 0
+        self.shadowed = []
+
+    def _is_shadowed(self, name):
+        return any(name in names for names in self.shadowed)
+
+    def _visit_scope(self, node, names):
+        self.shadowed.append(names)
+        try:
+            return self.generic_visit(node)
+        finally:
+            self.shadowed.pop()
+
+    def visit_FunctionDef(self, node):
+        self.depth += 1
+        try:
+            if self.depth == 1:
+                # The method itself
+                return self.generic_visit(node)
+            # A nested function: its parameters and the names it assigns are
+            # its own, whatever they are called
+            return self._visit_scope(node, _bound_names(node))
+        finally:
+            self.depth -= 1
+
+    visit_AsyncFunctionDef = visit_FunctionDef
+
+    def visit_Lambda(self, node):
+        return self._visit_scope(node, _bound_names(node))
 
     def visit_Name(self, node):
+        if self._is_shadowed(node.id):
+            return node
         if node.id in self.recurse_syms:
             new_node = ast.Name(self.ovld_mangled, ctx=node.ctx)
             if self.analysis.is_method and isinstance(node.ctx, ast.Load):
@@ -423,9 +454,14 @@ class NameConverter(ast.NodeTransformer):
             return node
 
     def visit_Call(self, node):
-        if not isinstance(node.func, ast.Name) or node.func.id not in (
-            *self.recurse_syms,
-            self.call_next_sym,
+        if (
+            not isinstance(node.func, ast.Name)
+            or node.func.id
+            not in (
+                *self.recurse_syms,
+                self.call_next_sym,
+            )
+            or self._is_shadowed(node.func.id)
         ):
             return self.generic_visit(node)
 
@@ -569,6 +605,41 @@ class NameConverter(ast.NodeTransformer):
             ],
         )
         return ast.copy_location(old_node=node, new_node=new_node)
+
+
+def _bound_names(node):
+    """Names that belong to the scope of a nested def or lambda."""
+    a = node.args
+    names = {arg.arg for arg in [*a.posonlyargs, *a.args, *a.kwonlyargs]}
+    for arg in (a.vararg, a.kwarg):
+        if arg is not None:
+            names.add(arg.arg)
+    if isinstance(node, ast.Lambda):
+        return names
+    declared = set()
+    todo = list(node.body)
+    while todo:
+        sub = todo.pop()
+        if isinstance(
+            sub, (ast.FunctionDef, ast.AsyncFunctionDef, ast.ClassDef)
+        ):
+            # (their bodies are scopes of their own)
+            names.add(sub.name)
+            continue
+        if isinstance(sub, ast.Lambda):
+            continue
+        if isinstance(sub, ast.Name) and isinstance(
+            sub.ctx, (ast.Store, ast.Del)
+        ):
+            names.add(sub.id)
+        elif isinstance(sub, (ast.Global, ast.Nonlocal)):
+            declared.update(sub.names)
+        elif isinstance(sub, ast.ExceptHandler) and sub.name:
+            names.add(sub.name)
+        elif isinstance(sub, ast.alias):
+            names.add((sub.asname or sub.name).split(".")[0])
+        todo.extend(ast.iter_child_nodes(sub))
+    return names - declared
 
 
 def _search_names(co, values, glb, closure=None):
